@@ -179,6 +179,8 @@ func ruleMatchAcceptance(c *core.Ctx, rule string) {
 }
 
 func runC01(c *core.Ctx) {
+	ruleNoSwallowedLayerErrors(c, "R10.swallow", moduleErrCallee, "/pwr", "/pwr/patcher", "/pwr/bowl", "/pwr/rediff", "/pwr/overlay", "/wire", "/wsync", "/bsdiff", "/bsdiff/lrufile", "/multiread", "/ctxcopy")
+	ruleNoDroppedLayerErrors(c, "R10.err", "/pwr", "/pwr/patcher", "/pwr/bowl", "/pwr/rediff", "/pwr/overlay", "/wire", "/wsync", "/bsdiff", "/multiread", "/ctxcopy")
 	c.Rule("R01.1", "match acceptance (strong hash, non-empty window, short-size class from the last read)")
 	c.Rule("R01.2", "whole-file op detection")
 	c.Rule("R01.3", "per-file framing, writer side")
@@ -357,6 +359,95 @@ func runC01(c *core.Ctx) {
 	}
 	ruleCodecPairing(c, "R13.3")
 	ruleCopyWritesWhatItRead(c, "R01.6")
+
+	// ---- R01.7: a series ends successfully only after the file was produced: by a transposition, or through a
+	// writer that was finalized (no shortcut for "uninteresting" files)
+	c.Rule("R01.7", "a series succeeds only after a transposition or a finalized writer")
+	isProduce := func(in ssa.Instruction) bool {
+		cl, ok := in.(*ssa.Call)
+		return ok && cl.Call.IsInvoke() && (cl.Call.Method.Name() == "Transpose" || cl.Call.Method.Name() == "Finalize")
+	}
+	for _, name := range []string{"savingPatcher.processRsync", "savingPatcher.processBsdiff"} {
+		fn := c.P.Fn("pwr/patcher", name)
+		if fn == nil {
+			c.Missing("R01.7", "pwr/patcher."+name, "not found")
+			continue
+		}
+		n := 0
+		for _, rs := range successReturns(fn) {
+			n++
+			p := core.FindPath(fn, nil, isInstr(rs.Ret), isProduce)
+			c.Check(p == nil, "R01.7", core.FnName(fn), "success only after Transpose or Finalize", core.InstrPos(rs.Ret),
+				"every path to this success return transposes the file or finalizes its writer", "a series can end successfully without the file having been transposed or written and finalized: the file is missing from (or stale in) the output").Path = c.P.PathStrings(p)
+		}
+		c.Floor("R01.7", "success returns of "+name, n, 1)
+	}
+
+	// ---- R01.8: between a file's header and the next header (or the end), the file went through the differ
+	c.Rule("R01.8", "every file announced in the patch went through the differ")
+	if wp := c.P.Fn("pwr", "DiffContext.WritePatch"); wp == nil {
+		c.Missing("R01.8", "pwr.(*DiffContext).WritePatch", "not found")
+	} else {
+		isHdr := func(in ssa.Instruction) bool {
+			cl, ok := in.(ssa.CallInstruction)
+			if !ok || !strings.HasSuffix(core.CalleeName(cl), "WriteContext).WriteMessage") || len(cl.Common().Args) < 2 {
+				return false
+			}
+			return core.TypeName(core.StripConv(cl.Common().Args[1]).Type()) == "pwr.SyncHeader"
+		}
+		isDiff := func(in ssa.Instruction) bool {
+			cl, ok := in.(*ssa.Call)
+			if !ok {
+				return false
+			}
+			n := core.CalleeName(cl)
+			if strings.HasSuffix(n, "Context).ComputeDiff") {
+				return true
+			}
+			if n == "taskgroup.Do" {
+				// one of the tasks runs the differ
+				found := false
+				for _, a := range cl.Call.Args {
+					for _, o := range core.Origins(a) {
+						_ = o
+					}
+				}
+				for _, f := range core.WithAnons(wp) {
+					if f.Parent() == wp && len(core.CallsMatching(f, true, func(nm string, _ ssa.CallInstruction) bool { return strings.HasSuffix(nm, "Context).ComputeDiff") })) > 0 {
+						found = true
+					}
+				}
+				return found
+			}
+			return false
+		}
+		n := 0
+		core.Instrs(wp, func(in ssa.Instruction) {
+			if !isHdr(in) {
+				return
+			}
+			n++
+			var succ []ssa.Instruction
+			for _, rs := range successReturns(wp) {
+				succ = append(succ, rs.Ret)
+			}
+			isEnd := func(x ssa.Instruction) bool {
+				if x == in {
+					return true
+				}
+				for _, r := range succ {
+					if r == x {
+						return true
+					}
+				}
+				return false
+			}
+			p := core.FindPath(wp, in, isEnd, isDiff)
+			c.Check(p == nil, "R01.8", core.FnName(wp), "a file's series is produced by the differ", core.InstrPos(in),
+				"every path from this SyncHeader to the next one, or to the successful end, runs ComputeDiff (directly or as a task)", "a file can be announced in the patch (SyncHeader written) and closed without having gone through the differ: a shortcut writes its series by hand").Path = c.P.PathStrings(p)
+		})
+		c.Floor("R01.8", "SyncHeader writes in WritePatch", n, 1)
+	}
 }
 
 // ruleFraming: R01.3 / R07.2 writer-side framing in WritePatch and Optimize.
